@@ -90,6 +90,9 @@ def r18_1(ctx, fx):
                         for v, tb in t["targets"]:
                             if v == idv:
                                 id_edges.add((n, ("sw", v)))
+            # .. or the same test spelled `code == MULTIHASH_IDENTITY_CODE`
+            is_idc = lambda f, o: is_const(fx, f, o, "peer_id::MULTIHASH_IDENTITY_CODE") or (isinstance(idv, int) and f.const_value(o) == idv and "k" in o)
+            id_edges |= {(sw, lab) for sw, lab, rel, cn in guards.edge_facts(fn, is_code, is_idc) if rel == "=="}
             is_dlen = lambda f, o: any(l.dest[0] in slice_locals(f, o, strict=True) for l in f.calls(r"slice::(<impl \[T\]>::)?len$")
                                        if (f.producer(l.args[0]) is not None and f.producer(l.args[0]).matches(r"Multihash(<.*>)?::digest$")))
             is_b = lambda f, o: is_const(fx, f, o, "peer_id::MAX_INLINE_KEY_LENGTH")
@@ -278,16 +281,24 @@ DISCHARGED = {
 
 
 def r18_3(ctx, fx):
+    from common import nested_closures
     n = 0
-    for key in PARSERS:
+    top = [k for k in PARSERS if "::{closure" not in k]
+    for key in top:
         fn = ctx.fn(fx, key, "R18.3", required=key in PARSERS[:8])
         if fn is None:
             continue
-        n += 1
-        ps = panics.panic_sites(fn)
-        ctx.ob("R18.3", "%s/no-panic-site" % short(key) if "closure" not in key else "%s%s/no-panic-site" % (short(key), key[key.index("::{closure"):]), not ps, site=fn.site(fn.entry), cfg=fx.cfg,
-               detail="panic-capable constructs: %s" % [(p["kind"], p["desc"], fn.site(p["node"])) for p in ps])
-    ctx.anchor("R18.3", "parser bodies", n, 12, cfg=fx.cfg)
+        # the parser and every closure written inside it (whatever their number: `map_err(|e| ..)` closures come and go with the
+        # spelling of the error handling); helpers that did not exist in the baseline are seen through (engine/inline.py)
+        for body in [fn] + nested_closures(fx, fn):
+            n += 1
+            ctx.bodies.add((fx.cfg, body.key))
+            ps = panics.panic_sites(body)
+            k = body.key
+            nm = short(key) if body is fn else "%s%s" % (short(key), k[k.index("::{closure"):] if "::{closure" in k else "::" + short(k))
+            ctx.ob("R18.3", "%s/no-panic-site" % nm, not ps, site=body.site(body.entry), cfg=fx.cfg,
+                   detail="panic-capable constructs: %s" % [(p["kind"], p["desc"], body.site(p["node"])) for p in ps])
+    ctx.anchor("R18.3", "parser bodies", n, len([k for k in top if k in PARSERS[:8]]), cfg=fx.cfg)
     for key, (kind, why) in DISCHARGED.items():
         fn = fx.fn(key)
         if fn is None:
